@@ -36,7 +36,7 @@ LEVEL_TEXT = ("icontract postconditions on the real generator methods (count, ma
 TECHNIQUE = "runtime contracts (icontract) on the generator + statistical goodness-of-fit monitors vs exact phase-space densities"
 
 
-class CaseTimeout(Exception):
+class CaseTimeout(BaseException):
     pass
 
 
